@@ -1,0 +1,184 @@
+//go:build verif
+// +build verif
+
+package linker
+
+// This file is only compiled with the "verif" build tag. It projects the
+// linker's decisions (after tree shaking, chunk computation and cross-chunk
+// dependency computation) onto plain maps so that a verification harness
+// outside of this module can check them against a specification.
+
+import (
+	"sort"
+
+	"github.com/evanw/esbuild/internal/graph"
+	"github.com/evanw/esbuild/internal/js_ast"
+	"github.com/evanw/esbuild/internal/verif"
+)
+
+func verifLinkDone(c *linkerContext) {
+	if !verif.HasProc("link.done") {
+		return
+	}
+	entryPoints := c.graph.EntryPoints()
+	bitsOf := func(has func(uint) bool) []int {
+		bits := []int{}
+		for i := range entryPoints {
+			if has(uint(i)) {
+				bits = append(bits, i)
+			}
+		}
+		return bits
+	}
+
+	files := []interface{}{}
+	for _, sourceIndex := range c.graph.ReachableFiles {
+		file := &c.graph.Files[sourceIndex]
+		f := map[string]interface{}{
+			"idx":             int(sourceIndex),
+			"stable":          int(c.graph.StableSourceIndices[sourceIndex]),
+			"path":            file.InputFile.Source.KeyPath.Text,
+			"ns":              file.InputFile.Source.KeyPath.Namespace,
+			"pretty":          file.InputFile.Source.PrettyPaths.Rel,
+			"isLive":          file.IsLive,
+			"isEntry":         file.IsEntryPoint(),
+			"distance":        int(file.DistanceFromEntryPoint),
+			"bits":            bitsOf(file.EntryBits.HasBit),
+			"sideEffectsFree": file.InputFile.SideEffects.Kind != graph.HasSideEffects,
+		}
+		switch repr := file.InputFile.Repr.(type) {
+		case *graph.JSRepr:
+			f["kind"] = "js"
+			switch repr.Meta.Wrap {
+			case graph.WrapNone:
+				f["wrap"] = "none"
+			case graph.WrapCJS:
+				f["wrap"] = "cjs"
+			case graph.WrapESM:
+				f["wrap"] = "esm"
+			}
+			switch repr.AST.ExportsKind {
+			case js_ast.ExportsNone:
+				f["exportsKind"] = "none"
+			case js_ast.ExportsCommonJS:
+				f["exportsKind"] = "cjs"
+			case js_ast.ExportsESM:
+				f["exportsKind"] = "esm"
+			case js_ast.ExportsESMWithDynamicFallback:
+				f["exportsKind"] = "esm-dynamic"
+			}
+			parts := []interface{}{}
+			for partIndex, part := range repr.AST.Parts {
+				deps := []interface{}{}
+				for _, dep := range part.Dependencies {
+					deps = append(deps, []int{int(dep.SourceIndex), int(dep.PartIndex)})
+				}
+				declared := []string{}
+				for _, d := range part.DeclaredSymbols {
+					declared = append(declared, c.graph.Symbols.Get(d.Ref).OriginalName)
+				}
+				records := []int{}
+				for _, r := range part.ImportRecordIndices {
+					records = append(records, int(r))
+				}
+				parts = append(parts, map[string]interface{}{
+					"i":                    partIndex,
+					"isLive":               part.IsLive,
+					"canBeRemovedIfUnused": part.CanBeRemovedIfUnused,
+					"forceTreeShaking":     part.ForceTreeShaking,
+					"stmts":                len(part.Stmts),
+					"deps":                 deps,
+					"declared":             declared,
+					"records":              records,
+				})
+			}
+			f["parts"] = parts
+			records := []interface{}{}
+			for _, record := range repr.AST.ImportRecords {
+				target := -1
+				if record.SourceIndex.IsValid() {
+					target = int(record.SourceIndex.GetIndex())
+				}
+				records = append(records, map[string]interface{}{
+					"kind":   int(record.Kind),
+					"target": target,
+					"path":   record.Path.Text,
+				})
+			}
+			f["records"] = records
+		case *graph.CSSRepr:
+			f["kind"] = "css"
+		case *graph.CopyRepr:
+			f["kind"] = "copy"
+		}
+		files = append(files, f)
+	}
+
+	chunks := []interface{}{}
+	for chunkIndex, chunk := range c.chunks {
+		inChunk := []int{}
+		for sourceIndex := range chunk.filesWithPartsInChunk {
+			inChunk = append(inChunk, int(sourceIndex))
+		}
+		sort.Ints(inChunk)
+		imports := []interface{}{}
+		for _, imp := range chunk.crossChunkImports {
+			imports = append(imports, map[string]interface{}{"chunk": int(imp.chunkIndex), "kind": int(imp.importKind)})
+		}
+		ch := map[string]interface{}{
+			"i":       chunkIndex,
+			"isEntry": chunk.isEntryPoint,
+			"bits":    bitsOf(chunk.entryBits.HasBit),
+			"files":   inChunk,
+			"imports": imports,
+		}
+		if chunk.isEntryPoint {
+			ch["entryBit"] = int(chunk.entryPointBit)
+			ch["sourceIndex"] = int(chunk.sourceIndex)
+		}
+		if repr, ok := chunk.chunkRepr.(*chunkReprJS); ok {
+			ch["kind"] = "js"
+			exports := map[string]interface{}{}
+			exportAliases := []string{}
+			for ref, alias := range repr.exportsToOtherChunks {
+				exports[alias] = map[string]interface{}{
+					"name": c.graph.Symbols.Get(ref).OriginalName,
+					"file": int(ref.SourceIndex),
+				}
+				exportAliases = append(exportAliases, alias)
+			}
+			ch["exports"] = exports
+			ch["exportCount"] = len(repr.exportsToOtherChunks)
+			ch["exportAliasCount"] = len(exports)
+			from := []interface{}{}
+			for otherChunk, items := range repr.importsFromOtherChunks {
+				aliases := []string{}
+				for _, item := range items {
+					aliases = append(aliases, item.exportAlias)
+				}
+				sort.Strings(aliases)
+				from = append(from, map[string]interface{}{"chunk": int(otherChunk), "aliases": aliases})
+			}
+			ch["importsFrom"] = from
+		} else {
+			ch["kind"] = "css"
+		}
+		chunks = append(chunks, ch)
+	}
+
+	entries := []interface{}{}
+	for _, ep := range entryPoints {
+		entries = append(entries, map[string]interface{}{"sourceIndex": int(ep.SourceIndex), "outputPath": ep.OutputPath})
+	}
+
+	verif.Proc("link.done", map[string]interface{}{
+		"cwd":         c.fs.Cwd(),
+		"files":       files,
+		"chunks":      chunks,
+		"entries":     entries,
+		"splitting":   c.options.CodeSplitting,
+		"treeShaking": c.options.TreeShaking,
+		"format":      int(c.options.OutputFormat),
+		"mode":        int(c.options.Mode),
+	})
+}
